@@ -10,6 +10,7 @@ import (
 	"encoding/json"
 	"fmt"
 	"runtime/debug"
+	"strings"
 	"sync"
 	"sync/atomic"
 	"time"
@@ -308,9 +309,30 @@ func Replay(cfg Config, path []Op) *core.Violation {
 	return v
 }
 
+// harnessPanic reports whether a recovered panic originated in harness or
+// framework code (first frame after the panic machinery is in main/verif)
+// rather than in the code under test.
+func harnessPanic(stack string) bool {
+	i := strings.Index(stack, "panic(")
+	if i < 0 {
+		return false
+	}
+	for _, l := range strings.Split(stack[i:], "\n") {
+		if strings.HasPrefix(l, "\t") || strings.HasPrefix(l, "panic(") || strings.HasPrefix(l, "runtime.") || l == "" {
+			continue
+		}
+		return strings.HasPrefix(l, "main.") || strings.HasPrefix(l, "verif/")
+	}
+	return false
+}
+
 func safeApply(w World, op Op) (v *core.Violation) {
 	defer func() {
 		if r := recover(); r != nil {
+			if st := string(debug.Stack()); harnessPanic(st) {
+				v = &core.Violation{Signature: "HARNESS-FAULT", What: fmt.Sprintf("panic in harness code: %v\n%s", r, trimStack([]byte(st)))}
+				return
+			}
 			v = &core.Violation{
 				Signature: fmt.Sprintf("panic/%v", firstLine(fmt.Sprint(r))),
 				What:      fmt.Sprintf("panic in real code: %v\n%s", r, trimStack(debug.Stack())),
